@@ -1,0 +1,24 @@
+//go:build verif
+
+package control
+
+// Verification hooks (build tag verif). verifYieldHook is installed by conformance harnesses; every
+// yield point blocks in the hook until the harness scheduler lets the calling goroutine continue,
+// which is how model-checker schedules are replayed on the real code. verifObserveHook receives
+// state projections at linearisation points.
+var (
+	verifYieldHook   func(point string, arg any)
+	verifObserveHook func(point string, payload any)
+)
+
+func verifYield(point string, arg any) {
+	if h := verifYieldHook; h != nil {
+		h(point, arg)
+	}
+}
+
+func verifObserve(point string, payload func() any) {
+	if h := verifObserveHook; h != nil {
+		h(point, payload())
+	}
+}
